@@ -1208,7 +1208,7 @@ class UserSessionManager(Service, discriminator="user-session-manager"):
         def _remote_login(request: RequestFormat, context: Dict) -> RequestResponse:
             """Request should take the form [username, password, remote_ip_address]."""
             username, password, remote_ip_address = request
-            response = RequestResponse.from_bool(self.remote_login(username, password, remote_ip_address))
+            response = RequestResponse.from_bool(bool(self.remote_login(username, password, remote_ip_address)))
             response.data = {"remote_hostname": self.parent.config.hostname, "username": username}
             return response
 
@@ -1446,7 +1446,7 @@ class UserSessionManager(Service, discriminator="user-session-manager"):
             session.end_step = self.current_timestep
             self.local_session = None
 
-        if not local and remote_session_id:
+        if not local and remote_session_id in self.remote_sessions:
             self.parent.terminal._disconnect(remote_session_id)
             session = self.remote_sessions.pop(remote_session_id)
         if session:
